@@ -97,7 +97,7 @@ def retarget(prog, rng, nq):
 
 
 def gen_cases(rng, tier):
-    n = 360 if tier == 'quick' else 4000
+    n = 900 if tier == 'quick' else 6000
     cases = []
     for i in range(n):
         nq = rng.randint(1, 4)
